@@ -86,7 +86,8 @@ def gen_cases(rng, tier):
             alpha = rng.choice([0.0, rng.uniform(0.0, 0.5), rng.uniform(0.0, 0.5)])
             cases.append({"kind": "run", "n": n, "npol": npol, "sps": sps, "R": R, "L": L, "gamma": gamma, "P": P, "phi": phi,
                           "b2": b2, "b3": b3, "alpha": alpha, "shape": rng.choice(["random", "pulses", "nrz"]),
-                          "lead0": rng.choice([0, 0, 2, 5]), "ypow": rng.choice([0.0, 0.3, 1.0]), "seed": rng.getrandbits(32)})
+                          "lead0": rng.choice([0, 0, 2, 5]), "ypow": rng.choice([0.0, 0.3, 1.0]), "seed": rng.getrandbits(32),
+                          "dtype": rng.choice(["complex", "complex", "float"])})
     # convergence to the NLSE (first order in phi_max) against the independent fixed-step reference: a few small cases
     # in the quick tier, pure third-order dispersion included; many in the thorough tier
     for i in range(4 if tier == "quick" else 24):
@@ -121,6 +122,14 @@ def gen_cases(rng, tier):
 
 
 def _make(case):
+    a = _make_complex(case)
+    dt = case.get("dtype", "complex")
+    if dt == "float":          # a real-valued field stored as float64 (optical_signal keeps the dtype it is given)
+        return np.ascontiguousarray(np.abs(a))
+    return a
+
+
+def _make_complex(case):
     if case["shape"] == "zero":
         n = case["n"]
         return np.zeros(n, complex) if case["npol"] == 1 else np.zeros((2, n), complex)
